@@ -555,7 +555,11 @@ class EnvSim:
             import pickle
             try:
                 self._originals = getattr(self, "_originals", []) + [self.env]
-                if op.get("how") == "pickle":
+                if op.get("how") == "shallow":
+                    # copy.copy(env): shares the scenario, network and
+                    # spaces with the original; the episode is its own
+                    new = copy.copy(self.env)
+                elif op.get("how") == "pickle":
                     try:
                         blob = pickle.dumps(self.env)
                     except Exception:
@@ -661,6 +665,21 @@ class EnvSim:
         if state is None:
             self.counters.hit("replay.skipped_gstep")
             return
+        if op.get("rebuilt"):
+            # the caller stored the state as an array (replay buffer) and
+            # rebuilds it with the public constructor before looking ahead
+            from nasim.envs.state import State
+            try:
+                arr = state.numpy_flat()
+                if op["rebuilt"] == "float64":
+                    arr = arr.astype(np.float64)
+                elif op["rebuilt"] == "copy":
+                    arr = np.array(arr, copy=True)
+                state = State.from_numpy(arr, state.shape(),
+                                         state.host_num_map)
+            except Exception as e:
+                raise SutError("generative_step", e)
+            self.counters.hit("fault.state_rebuilt_from_array")
         plain, obj = self.resolve(op)
         if obj is None:
             self.counters.hit("replay.unresolved_action")
@@ -855,8 +874,8 @@ class EnvSim:
             # (never a draw that equals the probability: a tie has measure
             # zero and is outside what C07 states)
             u = [float(a.prob / 2).hex()] * 3 \
-                if (fx.random() < 0.6 and a.prob > 0) else \
-                self._gen_draws(fl, swarm, a)
+                if (fx.random() < 0.6 and a is not None and a.prob > 0) \
+                else self._gen_draws(fl, swarm, a)
             self.exec_op({"op": "gstep", "src": "cur", "drop": True,
                           "a": [k[0], list(k[1]), k[2]], "u": u})
 
@@ -986,8 +1005,8 @@ class EnvSim:
                         % 25 == 0):
                     hk = core.h64(f"{self.seed}|fh|{len(self.ops)}")
                     op = {"op": "fork",
-                          "how": "pickle" if hk % 2 else "deepcopy",
-                          "orig_steps": (hk // 2) % 4}
+                          "how": ("pickle", "deepcopy", "shallow")[hk % 3],
+                          "orig_steps": (hk // 3) % 4}
                 elif "C07" in self.props and wl.random() < 0.003:
                     op = {"op": "epfreq", "pick": wl.randint(0, 50),
                           "n": 500, "seed_first": wl.choice(
@@ -1190,11 +1209,16 @@ class EnvSim:
         cfg = self.cfg
         kind, t, name = k
         if kind == "exploit":
-            e = cfg.exploits[name]
+            e = cfg.exploits.get(name)
+            if e is None:
+                return None     # the space offers an action the source
+                #                 does not define (C11's business)
             return model.Act(kind, t, name, e["cost"], e["prob"], 1,
                              e["service"], None, e["os"], e["access"])
         if kind == "privesc":
-            p = cfg.privescs[name]
+            p = cfg.privescs.get(name)
+            if p is None:
+                return None
             return model.Act(kind, t, name, p["cost"], p["prob"], 1, None,
                              p["process"], p["os"], p["access"])
         return model.Act(kind, t, name, cfg.scan_cost.get(kind, 0), 1.0, 1,
@@ -1248,7 +1272,7 @@ class EnvSim:
             # (a productive action, then an action from the resulting
             # hypothetical state), then try that second action for real
             k1 = self._productive(wl, status)
-            if k1 is not None:
+            if k1 is not None and self._act_of_key(k1) is not None:
                 a1 = self._act_of_key(k1)
                 st2, _ = model.apply_success(self.cfg, status, a1)
                 k2 = self._productive(wl, st2) or k
@@ -1329,6 +1353,14 @@ class EnvSim:
         a = self._act_of_key(k)
         op = {"op": "gstep", "src": src, "a": [k[0], list(k[1]), k[2]],
               "u": self._gen_draws(fl, swarm, a)}
+        hr = core.h64(f"{self.seed}|rebuilt|{len(self.ops)}")
+        if hr % 8 == 0:
+            op["rebuilt"] = ("float64", "copy", "float64")[(hr // 8) % 3]
+            if "C09" in self.props:
+                # (the dtype of what a caller-built float64 state turns into
+                # is not the library's promise; C09 judges float32 copies)
+                op["rebuilt"] = "copy"
+            return op
         if src != "cur":
             self.gstep_ops.append(op)
             self.gstep_ops = self.gstep_ops[-6:]
@@ -1353,7 +1385,8 @@ def run_one(prop, tier, root, idx, extra):
     spec = configs.draw_spec(cfgr, extra.get("mix"))
     if cfgr.random() < extra.get("huge_rate", 0.0):
         p = configs.gen_params(cfgr, max_hosts=30)
-        p["num_hosts"] = cfgr.choice([201, 202, 205, 210])
+        p["num_hosts"] = cfgr.choice([201, 202, 205, 210, 257, 258, 300,
+                                      257, 300])
         p["address_space_bounds"] = None
         p["uniform"] = False
         spec = {"kind": "generated", "params": configs.fix_params(p, cfgr)}
